@@ -64,7 +64,8 @@ theorem riseset_first_approx_altitude (lat dec adj : ℝ)
   rw [e, toRadians_toDegrees]
   exact altitude_eq _ _ _ hk hr'.le hr.le
 
-/-- **the rise and set the code solves for are those of the requested date**: the approximate
+/-- **the day fractions the rise and set are solved from lie in the requested date** (arithmetic
+    half; `riseset_start_from_day_fractions` below binds it to the model): the approximate
     fractions of the day at which it evaluates the Sun (and from which the one-step correction
     starts) are the mean-transit fraction minus / plus the semi-diurnal arc, each reduced into
     [0, 1) on its own - they differ from m₀ ∓ H₀/360 by a whole number of days and lie within the
@@ -78,6 +79,22 @@ theorem riseset_fractions_of_the_day (m0 adj : ℝ) :
   exact ⟨⟨a1, a2, ⌊m0 - adj⌋, a3⟩, ⟨b1, b2, ⌊m0 + adj⌋, b3⟩⟩
 
 variable {α : Type} [Add α] [Sub α] [Mul α] [Div α] [Neg α] [OfScientific α] [Sc α]
+
+/-- **the rise and set the model solves for start from those day fractions**: when the rise/set hour
+    angle exists, Shurooq (Maghrib) is `shurMagh` evaluated at `capAngle1 (m₀ − H₀/360)`
+    (`capAngle1 (m₀ + H₀/360)`) and at the hour angle interpolated at that same fraction - the
+    fractions `riseset_fractions_of_the_day` places in [0, 1).  Every scalar type.  (Dropping the two
+    reductions from the model, as seed C02f did to the code, makes this theorem false.) -/
+theorem riseset_start_from_day_fractions (t : TopAstroDay α) (w : Weather α) (adj : α)
+    (h : shurMaghM0Adj t.coords.lat t.cur.dec = some adj) :
+    let m0 := (t.cur.ra - t.coords.lon - t.cur.sid) / Gen.TWO_PI_DEG
+    let rd := raInterpDeltas t.prev.ra t.cur.ra t.next.ra
+    let dd := decInterpDeltas t.prev.dec t.cur.dec t.next.dec
+    (shurDhuhrMagh t w).1 = some (shurMagh t.coords.lat t.cur.dec t.cur.dra w dd (capAngle1 (m0 - adj))
+      (hourAngle t.cur.sid t.cur.ra t.coords.lon rd (capAngle1 (m0 - adj)))) ∧
+    (shurDhuhrMagh t w).2.2 = some (shurMagh t.coords.lat t.cur.dec t.cur.dra w dd (capAngle1 (m0 + adj))
+      (hourAngle t.cur.sid t.cur.ra t.coords.lon rd (capAngle1 (m0 + adj)))) := by
+  simp [shurDhuhrMagh, h]
 
 /-- **weather never moves a time that is not Shurooq or Maghrib, nor changes whether they exist;
     absent weather is the default weather** — every scalar type (Thm C12) -/
